@@ -8,6 +8,61 @@ NOT_APPLICABLE = {("C%02d" % i): _PENDING for i in range(1, 21)}
 NODE_NOTE = ("Trusted: Coq kernel + vm_compute; simulator (scheduler/network re-implementation, state dump), boolean equalities; "
              "Not in the model: real sockets/timers/goroutine interleavings, I/O errors.")
 TEXT = {
+ "C11": {
+  "level": "Machine-checked proofs (Coq, no axioms) over the node model: only voters of their own latest configuration start elections or become "
+           "leader (all event kinds, incl. timeout-now and bootstrap), non-voter acknowledgements do not enter the commit computation, promotion "
+           "requires a completed round, self-demoted leaders step down at commit, removed nodes shut down only after the removal is committed. "
+           "Tie: per-event differential execution on simulated clusters with membership changes (incl. slow promotion rounds) + monitor.",
+  "design_ref": "DESIGN.md 5 (C11)", "note": NODE_NOTE,
+  "technique": "Coq proofs of authority rules over all node events + differential correspondence",
+ },
+ "C16": {
+  "level": "Machine-checked proofs (Coq, no axioms) of the transfer rules: eligible target only, no new entries or configuration actions during a "
+           "transfer, success only with a higher term, failures clear the transfer, validation. The 'cluster can keep or elect a leader afterwards' "
+           "clause is liveness (partial, see C17). Tie: per-event differential execution of transfer events, timeout-now delivery/loss, task replies.",
+  "design_ref": "DESIGN.md 5 (C16)", "note": NODE_NOTE,
+  "technique": "Coq proofs of transfer rules + differential correspondence incl. task replies",
+ },
+
+ "C10": {
+  "level": "Machine-checked proofs (Coq, no axioms): restart keeps term and vote, keeps every flushed entry, resets a log left behind its snapshot, "
+           "is contiguous with the snapshot from every state including the intermediate states of snapshot installation (the pre-repair restart is "
+           "refuted by a witness), and starts as a follower with the membership of log-or-snapshot; segment-file level crash consistency is C14. "
+           "Tie and search: on real nodes the storage directory is copied at every verifPoint of every storage-mutating handler and every copy is "
+           "restarted with the real New and judged. Known finding D10 (stale lock file) is reported as KNOWN-FINDING.",
+  "design_ref": "DESIGN.md 5 (C10)", "note": NODE_NOTE + " Process-crash model: completed file operations survive, unflushed log tail lost.",
+  "technique": "Coq proofs about restart incl. mid-handler crash states + exhaustive crash-point imaging of real nodes",
+ },
+
+ "C02": {
+  "level": 'Machine-checked proofs (Coq, no axioms): node-level rules (up-to-date check for new votes, truncation only from the first conflict, follower holds request entries as sent, follower commit rule, leader append-only) and, on the abstract protocol (Props/C02.v when present), leader completeness and commit stability for every cluster size and interleaving with static voters. PARTIAL where stated: voter-set changes (C08), refinement node model -> abstract protocol argued per rule, not as one simulation theorem. Tie: per-event differential execution + monitors (committed entry differs / leader misses committed entry).',
+  "design_ref": "DESIGN.md 5 (C02), Appendix E", "note": NODE_NOTE,
+  "technique": 'Coq proofs (rules + abstract protocol invariant) + differential correspondence + monitors',
+ }, "C03": {
+  "level": 'Machine-checked proofs (Coq, no axioms): the state machine is fed exactly the entries after its position up to the commit index, contiguously and in order (follower path and leader queue path); on the abstract protocol (Props/C03.v when present) committed prefixes of any two nodes are prefix-related. Tie: per-event differential execution (fsm.index/term after every event) + monitor comparing the recorded command lists of all state machines after every event.',
+  "design_ref": "DESIGN.md 5 (C03)", "note": NODE_NOTE,
+  "technique": 'Coq proofs + differential correspondence + state-machine prefix monitor',
+ }, "C04": {
+  "level": 'Machine-checked proofs (Coq, no axioms): log matching on the abstract protocol for every reachable state of every cluster size (Props/C04.v), leader append-only; node-level: the request writer emits faithful log slices, followers hold request entries exactly as sent. Tie: per-event differential execution + ledger monitor over every log dumped.',
+  "design_ref": "DESIGN.md 5 (C04), Appendix E", "note": NODE_NOTE,
+  "technique": 'Coq invariant proof on abstract protocol + node rules + differential correspondence + ledger monitor',
+ }, "C07": {
+  "level": 'Machine-checked proofs (Coq, no axioms) of the node-level client rules: definitive rejections change nothing, accepted updates get consecutive positions in batch order, release is a committed prefix of the queue, update replies are the FSM result at the assigned position, end of leadership answers every queued task ambiguously. PARTIAL: exactly-once/real-time order across leaders rests on C02/C03. Tie: per-event differential execution including every task reply.',
+  "design_ref": "DESIGN.md 5 (C07)", "note": NODE_NOTE,
+  "technique": 'Coq proofs of queue/reply rules + differential correspondence on task replies',
+ }, "C09": {
+  "level": "Machine-checked proofs (Coq, no axioms) of contiguous apply, snapshot <= commit, compaction only of a snapshotted prefix, retention of what replications still read, fresh views after compaction, entries-or-snapshot for lagging followers, consistent reset on installation. PARTIAL: memory-mapping lifetime under real concurrency is outside the model; the scenario corpus (compaction at a follower's match boundary) and the live driver exercise it.",
+  "design_ref": "DESIGN.md 5 (C09)", "note": NODE_NOTE,
+  "technique": 'Coq proofs of snapshot/compaction rules + differential correspondence + targeted schedules',
+ }, "C12": {
+  "level": 'Machine-checked proofs (Coq, no axioms): label = (fsm index, fsm term, committed configuration) captured at one instant, published unchanged and only if newer; membership after restart/installation derived from label and newest configuration entry. Tie: per-event differential execution with the snapshot goroutine held at a hook so that capture and publication are separate events.',
+  "design_ref": "DESIGN.md 5 (C12)", "note": NODE_NOTE,
+  "technique": 'Coq proofs of snapshot labelling + differential correspondence with controlled goroutine interleaving',
+ }, "C17": {
+  "level": "Machine-checked proofs (Coq, no axioms): leader stickiness in full; the progress mechanisms one by one (election start, vote for up-to-date candidate, win at quorum, nextIndex convergence, match advance, single-voter commit, step-down on quorum loss). PARTIAL: 'within a bounded number of election time-outs' needs real time and fair scheduling, which no executable model expresses; the simulator's scenarios end in converged clusters.",
+  "design_ref": "DESIGN.md 5 (C17)", "note": NODE_NOTE,
+  "technique": 'Coq proofs of stickiness and progress mechanisms + differential correspondence',
+ },
  "C06": {
   "level": "Machine-checked proofs (Coq, no axioms) of the node-level rules that make an acknowledged entry durable on a majority of voters: "
            "soundness of the leader's majority computation over the voters of the latest configuration (self counted iff voter), the invariant that "
